@@ -80,14 +80,19 @@ def _proj_t2(t2):
 
 
 class World:
-    def __init__(self, cached: bool, workdir: str, init_eps=()):
+    def __init__(self, cached: bool, workdir: str, init_eps=(), twin: bool = False):
         from .. import engine as E
         self.E = E
         self.cached = cached
+        self.twin = twin
         self.states = {}
         self.snapdir = os.path.join(workdir, "snaps_" + ("on" if cached else "off"))
         for s in (1, 2):
             gs = _graphs()
+            if twin:
+                # twin mode: an isolated node whose id sorts first already carries the label "story" (which n:p1 carries
+                # too): the label map lists "story" first and maps it to the LAST node that carries it
+                gs = {gid: (dict(g, nodes=[("n:a0", "story", [])] + list(g["nodes"])) if gid == "g:surface" else g) for gid, g in gs.items()}
             if s == 2:
                 # same content, edges inserted in the opposite order: the store iterates in insertion order
                 gs = {gid: {"nodes": g["nodes"], "edges": list(reversed(g["edges"]))} for gid, g in gs.items()}
@@ -156,9 +161,9 @@ class World:
         elif name == "add_node":
             st = self.states[s]["store"]
             if getattr(self, "twin", False):
-                # twin mode: the new node is isolated and carries a label that another node already carries ("story"); its id
+                # twin mode: the new node is isolated and carries a label that another node already carries ("banana"); its id
                 # sorts first, so the label map keeps its items and changes only its iteration order
-                st.upsert_nodes("g:surface", [Node(id="n:a0", label="story")])
+                st.upsert_nodes("g:surface", [Node(id="n:a", label="banana")])
             else:
                 st.upsert_nodes("g:surface", [Node(id="n:bread", label="bread")])
                 st.upsert_edges("g:surface", [Edge(id="e9", src="n:banana", dst="n:bread", weight=0.9, rel="supports")])
@@ -220,14 +225,13 @@ def replay_history(case) -> Dict[str, Any]:
     try:
         # every history runs twice: with the text token spelled identically on every turn (repeated turns hit the caches)
         # and with the spelling rotating from turn to turn (a key that folds spellings serves the wrong entry)
-        has_add = any(ev["ev"] == "add_node" for ev in h)
+        has_add = any(ev["ev"] in ("add_node", "swap_labels") for ev in h)
         for spell in ((False, True, "twin") if has_add else (False, True)):
             res = {}
             for cached in (True, False):
                 E.reset_global_caches()
-                w = World(cached, work, case.get("init_eps", ()))
+                w = World(cached, work, case.get("init_eps", ()), twin=(spell == "twin"))
                 w.spell = spell is True
-                w.twin = spell == "twin"
                 seq = []
                 for ev in h:
                     if ev["ev"] == "turn":
